@@ -25,6 +25,13 @@ type Log struct {
 
 func New() *Log { return &Log{} }
 
+// SetTap installs (or removes) the tap.
+func (l *Log) SetTap(f func(E)) {
+	l.mu.Lock()
+	l.Tap = f
+	l.mu.Unlock()
+}
+
 // Emit appends an event and returns its sequence number.
 func (l *Log) Emit(ev string, fields E) int {
 	l.mu.Lock()
